@@ -9,6 +9,7 @@ pub mod c06;
 pub mod c07;
 pub mod c10;
 pub mod c14;
+pub mod c15;
 pub mod c18;
 
 pub fn registry() -> Vec<PropEntry> {
@@ -22,6 +23,7 @@ pub fn registry() -> Vec<PropEntry> {
         PropEntry { id: "C07", run: c07::run, replay: c07::replay },
         PropEntry { id: "C10", run: c10::run, replay: c10::replay },
         PropEntry { id: "C14", run: c14::run, replay: c14::replay },
+        PropEntry { id: "C15", run: c15::run, replay: c15::replay },
         PropEntry { id: "C18", run: c18::run, replay: c18::replay },
     ]
 }
